@@ -28,7 +28,8 @@ def _harness():
     i = dut.interface
     return CycleHarness(
         dut,
-        dict(rx_active=utmi.rx_active, rx_valid=utmi.rx_valid, rx_data=utmi.rx_data, address=dut.address),
+        dict(rx_active=utmi.rx_active, rx_valid=utmi.rx_valid, rx_data=utmi.rx_data, address=dut.address,
+             speed=dut.speed),
         dict(nt=i.new_token, pid=i.pid, addr=i.address, ep=i.endpoint, nf=i.new_frame, frame=i.frame),
         domain="usb")
 
@@ -114,6 +115,9 @@ def run_events(h, events, noise=0, tail=4):
     script, spans = utmi_rx.render(events, noise=noise)
     for ev, (s, _) in zip(events, spans):
         script[s]["address"] = ev["dev"]
+        # the detector's operating-speed input (it only feeds the inter-packet timer): any value, per packet;
+        # the statement's acceptance rule does not depend on it
+        script[s]["speed"] = ev.get("speed", 0)
     trace = h.run_script(script, tail=tail)
     return trace, spans
 
@@ -164,7 +168,7 @@ class TokenHistories(Sub):
             "token, SOF, wrong check nibble, 1-5 flipped bits in the 16-bit token word, truncated to 1/2 bytes, "
             "over-long, token fragments glued into one packet (bad/valid head + 0-2 filler + well-formed own token/SOF), "
             "data/handshake/special-PID/garbage/aborted packets, random 16-bit word; per-packet device "
-            "address, byte gaps, lead/trail/idle timing; each packet's literal bytes are re-parsed by the reference "
+            "address and operating-speed input (HIGH/FULL/LOW), byte gaps, lead/trail/idle timing; each packet's literal bytes are re-parsed by the reference "
             "(ref.usb2 + bit-serial CRC5) and the number and fields of new_token/new_frame strobes between consecutive "
             "packet ends must match; non-trivial = history has >=1 reported token AND >=1 rejected near-miss "
             "(foreign address / bad CRC5 / bad length / bad check nibble)")
@@ -176,16 +180,20 @@ class TokenHistories(Sub):
         return st.fixed_dictionaries(dict(
             evs=long_lists(_event_strategy(), min_size=1, max_size=30, average=14),
             noise=st.sampled_from([0, 0xFF, 0xA5, 0x2D]),
+            speeds=st.lists(st.sampled_from([0, 1, 2]), min_size=1, max_size=4),      # USBSpeed HIGH / FULL / LOW
         ))
 
     def run(self, case):
-        evs = case["evs"]
+        sp = case.get("speeds") or [0]
+        evs = [dict(ev, speed=sp[i % len(sp)]) for i, ev in enumerate(case["evs"])]
         trace, spans = run_events(self.h, evs, noise=case["noise"])
         res, labels, nv, nn = judge(evs, trace, spans)
         if res is not None:
             return res
         if any(ev["trail"] == 0 for ev in evs):
             labels.add("trail0")
+        if any(x != 0 for x in sp):
+            labels.add("speed-input-not-high")
         if any(max(ev["gaps"]) > 0 and len(ev["bytes"]) > 1 for ev in evs):
             labels.add("byte-gaps")
         return Result(ok=True, nontrivial=nv >= 1 and nn >= 1, labels=tuple(sorted(labels)))
@@ -241,7 +249,7 @@ class TokenExhaustive(Sub):
                 w = v | (usb2_crc5(v) << 11)
                 dev = (v & 0x7F) ^ ((1 << (v % 7)) if case["mode"] == "neq" else 0)
             evs.append(dict(bytes=[usb2.pid_byte(pid), w & 0xFF, w >> 8], dev=dev, lead=1, gaps=[0],
-                            trail=k & 1, idle=2))
+                            trail=k & 1, idle=2, speed=(k // 2) % 3))
         trace, spans = run_events(self.h, evs)
         res, labels, nv, nn = judge(evs, trace, spans)
         if res is not None:
